@@ -26,6 +26,8 @@ FILES = {
                          "    def method(self, p: S, q: 'Leaf') -> Y:\n        pass\nmodule_level: S = None\nother: root_fn = None\n",
     "c4pkg/a/b/sibling.py": "class S:\n    pass\n",
     "c4pkg/json.py": "import json\nclass Enc:\n    e: json.JSONEncoder\nm: json.JSONDecoder = None\n",
+    # a sub-module named like a builtin: it does not capture the builtin in its sibling modules (a module's globals are the last scope)
+    "c4pkg/int.py": "zero = 0\n",
     "c4pkg/shapes.py": "from c4pkg.a import shared as shapes2\nclass Sh:\n    s: shapes2.Y\n",
     # base classes are evaluated where the class statement stands: a member of the class body named like the first name of a base expression
     # (or like the base itself) must not capture it
